@@ -7,9 +7,13 @@
                                      not in the ledger (= obligations nobody has looked at)
 
 A site is keyed by (file, enclosing fn, normalised source line, occurrence number of that line inside the fn), so moving
-code around or editing other lines does not change keys. Classes in the ledger:
-    P:<theorem>  inside a function whose checked Lean model is proved panic-free (Props.C03_*)
-    S            not modelled: reached (or not) only by the worker search of the c03 area
+code around or editing other lines does not change keys; in the normalised line every plain identifier (local, parameter,
+constant: not a method / macro / path segment / field) is replaced by `_`, so renaming does not change keys either.
+Classes in the ledger:
+    P:<theorem>  inside a function whose checked Lean model is proved panic-free (Props.C03_*): the theorem speaks about
+                 the sites of the ledger, so a site that is not in the ledger is an open proof obligation (exit 1)
+    S            not modelled: reached (or not) only by the worker search of the c03 area. No theorem speaks about these,
+                 so a new one breaks nothing that was shown; it is reported (`new_unmodelled`) and the check widens the search
 A site that vanished is reported as information only (fewer panic sites cannot break the property).
 """
 import json, os, re, sys
@@ -35,6 +39,25 @@ def strip(line):
     line = re.sub(r'"(\\.|[^"\\])*"', '""', line)
     line = re.sub(r"//.*", '', line)
     return line
+
+
+KEYWORDS = set('as break const continue crate else enum extern false fn for if impl in let loop match mod move mut pub ref return self Self static struct super trait true type unsafe use where while async await dyn'.split())
+IDENT = re.compile(r'(?<![A-Za-z0-9_])([A-Za-z_][A-Za-z0-9_]*)(?!\s*(\(|!|::)|[A-Za-z0-9_])')
+
+
+def alpha(code):
+    """plain identifiers -> `_` (not keywords, not preceded by `.`, not followed by `(`, `!` or `::`)"""
+    def rep(m):
+        w = m.group(1)
+        if w in KEYWORDS or w[0].isdigit():
+            return w
+        b = code[:m.start()]
+        if b.endswith('.') and not b.endswith('..'):
+            return w        # a field
+        if m.start() >= 2 and code[m.start() - 2:m.start()] == '::':
+            return w        # last segment of a path: a type / associated item
+        return '_'
+    return IDENT.sub(rep, code)
 
 
 def inventory():
@@ -77,7 +100,7 @@ def inventory():
             hits = [h for h in hits if not re.match(r'.\[\s*\]$', h) and not re.match(r'.\[[^\]]*;[^\]]*\]$', h)]
             if not hits:
                 continue
-            norm = re.sub(r'\s+', ' ', code.strip())
+            norm = alpha(re.sub(r'\s+', ' ', code.strip()))
             k = (f, fn, norm)
             seen[k] = seen.get(k, 0) + 1
             sites.append({'file': f, 'fn': fn, 'line': norm, 'occ': seen[k], 'what': sorted(set(re.sub(r'[A-Za-z0-9_\)\]]\[.*', 'index', h).strip('.( ') for h in hits))})
@@ -111,13 +134,15 @@ def main():
         return 0
     led = json.load(open(LEDGER))['sites']
     cur = {key(s): s for s in inv}
-    new = [k for k in cur if k not in led]
+    new_all = [k for k in cur if k not in led]
+    new = [k for k in new_all if classify(cur[k]) != 'S']          # inside a function with a proved model
+    new_s = [k for k in new_all if classify(cur[k]) == 'S']
     gone = [k for k in led if k not in cur]
     by_class = {}
     for k in cur:
         c = led.get(k, 'NEW').split(':')[0]
         by_class[c] = by_class.get(c, 0) + 1
-    print(json.dumps({'sites': len(cur), 'by_class': by_class, 'new': new[:40], 'n_new': len(new), 'n_vanished': len(gone), 'vanished': gone[:10]}))
+    print(json.dumps({'sites': len(cur), 'by_class': by_class, 'new': new[:40], 'n_new': len(new), 'new_unmodelled': new_s[:40], 'n_new_unmodelled': len(new_s), 'n_vanished': len(gone), 'vanished': gone[:10]}))
     return 1 if new else 0
 
 
